@@ -597,6 +597,11 @@ impl StakingWorld {
             }
             return;
         }
+        // ---- C19: paused means no fund moves --------------------------------------------------
+        if !pre.active && matches!(site, "stake" | "stakeProxy" | "stakeBehalf" | "claim" | "claimNew" | "claimBehalf" | "compound"
+            | "merge" | "unstake" | "unstakeProxy" | "unbond" | "claimBoosted") {
+            tr.fail("C19", "paused_blocks_funds", site, "a fund-moving user operation succeeded while the staking farm is paused");
+        }
         let ub = Self::unbond_out(post);
         if let Some(r) = &info.reward_ret { self.paid += r; }
         if let Some(r) = &info.boosted_ret { self.paid += r; }
